@@ -993,6 +993,12 @@ package rueidis
 //@   assert [C27 a-lost-connection-is-a-nil-invalidation-for-the-connection-callback] at onInvalidations#1: arg0 == nil
 //@   assert [C27 a-lost-connection-is-a-nil-invalidation-for-the-dedicated-hook] at onInvalidations#2: arg0 == nil
 //@   assert [C27 both-callbacks-are-told-independently-of-each-other] at NewErrorResult: (p.onInvalidations != nil ==> calls(onInvalidations, 1) == 1) && (old.hooks.onInvalidations != nil ==> calls(onInvalidations, 2) == 1)
+// Redis 6 embeds invalidation pushes inside multi-key replies: every embedded push is dispatched, every other element is kept
+//@ func pipe._backgroundRead #c27
+//@   option opaque-pkgs=github.com/redis/rueidis/internal/cmds
+//@   modifies *
+//@   loop 1: invariant [C27 every-embedded-push-is-dispatched-and-every-other-element-kept] rangeindex >= -1 && i >= 0 && calls(handlePush, 2) + i == atentry(calls(handlePush, 2)) + rangeindex + 1
+//@   assert [C27 an-embedded-push-is-dispatched-with-its-own-content] at handlePush#2: v.typ == '>' && arg1 == v.values()
 //@ func subs.Confirm #c26
 //@   modifies *
 //@   assert [C26 every-subscriber-callback-of-the-channel-gets-the-confirmation] at fn: arg0 == sub
